@@ -125,11 +125,11 @@ Print Assumptions C20_scratch_truncated.
 
 (* non-vacuity: a concrete signature under a concrete chip-data file, through the SRC plugin with
    upper-case words, and a one-register dump, by computation *)
-Definition ex_cd : chipdata :=
-  [(L "20da0020", {| c_type := Some (L "PROC"); c_desc := None; c_attn := [(L "2", L "UNIT_CS")];
-                     c_sigs := [(L "55aa", {| sg_name := L "EQ_FIR"; sg_bits := [(L "7", L "parity error")] |})];
-                     c_regs := [(L "abcdef", {| rg_name := L "EQ_FIR_MASK"; rg_addrs := [(L "3", L "0x20010A45")] |})] |})].
 Example C20_example :
+  let ex_cd : chipdata :=
+    [(L "20da0020", {| c_type := Some (L "PROC"); c_desc := None; c_attn := [(L "2", L "UNIT_CS")];
+                       c_sigs := [(L "55aa", {| sg_name := L "EQ_FIR"; sg_bits := [(L "7", L "parity error")] |})];
+                       c_regs := [(L "abcdef", {| rg_name := L "EQ_FIR_MASK"; rg_addrs := [(L "3", L "0x20010A45")] |})] |})] in
   oe500_src ex_cd (L "BD8D5610") [L "0"; L "0"; L "0"; L "0"; L "20DA0020"; L "12340502"; L "55AA0307"; L "0"]
   = HwOk (JObj [(L "Primary Attention", JStr (L "system checkstop"));
                 (L "Signature Description",
